@@ -66,6 +66,7 @@ type C07Plan struct {
 	Tasks     []CTask   `json:"tasks"`
 	Order     []int     `json:"order"` // default order in which tasks get the baton
 	Preempts  []Preempt `json:"preempts"`
+	Sweep     bool      `json:"sweep,omitempty"` // member of an enumerating sweep block (informational)
 }
 
 type c07 struct{}
@@ -96,7 +97,7 @@ func (c07) Parties() map[string]string {
 	return map[string]string{"cors.Middleware incl. sync.RWMutex (TryLock/TryRLock)": "real (instrumented copy)", "scheduler": "simulator (baton passing, plan-driven)", "clients, operators": "stub tasks", "wrapped handler / ResponseWriter": "stub (schedule points and re-entrant operator calls inside)", "reference": "the real code executed sequentially (porcupine model)"}
 }
 func (c07) FaultKinds() []string {
-	return []string{"F3_preemption_fired", "F3_reentrant_at_header", "F3_reentrant_at_writeheader", "F3_reentrant_at_handler", "F1_rejected_reconfigure", "F2_restore"}
+	return []string{"sweep_runs_enumerating_every_schedule_point_of_a_victim_operation", "F3_preemption_fired", "F3_reentrant_at_header", "F3_reentrant_at_writeheader", "F3_reentrant_at_handler", "F1_rejected_reconfigure", "F2_restore"}
 }
 func (c07) Probes() []string {
 	ps := []string{"req_overlapped_1_state_change", "req_overlapped_2_state_changes", "passthrough_flip_during_request", "rejected_reconfigure_overlapped_request", "histories_checked", "porcupine_ok"}
@@ -219,7 +220,69 @@ func discriminating(r *R, cfgs []Cfg) *reqPool {
 	return rp
 }
 
+// genSweep: every fourth run belongs to a SWEEP. Runs are grouped in blocks of
+// sweepBlock consecutive sweep indices; all runs of a block share one small
+// scenario (drawn from the block's own PRNG stream): a victim operation in one
+// task and 1..3 operations in another. Run number i of the block preempts the
+// victim at its i-th schedule point and lets the other task run all its
+// operations there. A block therefore ENUMERATES "the other party acting at
+// every point of the victim operation" — the property's own quantifier ("a
+// reconfiguration landing at each point ...") — for that scenario; scenarios
+// are sampled.
+const sweepBlock = 192
+
+func (e c07) genSweep(seed, idx uint64) any {
+	block, pos := idx/sweepBlock, int(idx%sweepBlock)
+	r := newR(seed^0x53574545505f3037, block)
+	p := &C07Plan{Sweep: true}
+	n := r.Range(2, 3)
+	p.Cfgs = append(p.Cfgs, genCfgX(r))
+	for i := 1; i < n; i++ {
+		if r.P(0.5) {
+			p.Cfgs = append(p.Cfgs, varyCfg(r, p.Cfgs[r.Intn(i)]))
+		} else {
+			p.Cfgs = append(p.Cfgs, genCfgX(r))
+		}
+	}
+	p.InitCfg = r.Intn(n+1) - 1
+	p.InitDebug = p.InitCfg >= 0 && r.P(0.5)
+	pool := discriminating(r, p.Cfgs)
+	var victim, other CTask
+	if r.P(0.6) { // a request is the victim, operator calls land inside it
+		q := pool.pick(r, 1)[0]
+		victim.Ops = []COp{{Kind: "req", Req: &q}}
+		for k := r.Range(1, 3); k > 0; k-- {
+			other.Ops = append(other.Ops, genOperatorOp(r, n))
+		}
+	} else { // an operator call is the victim, requests (and another operator call) land inside it
+		victim.Ops = []COp{genOperatorOp(r, n)}
+		for _, q := range pool.pick(r, r.Range(1, 2)) {
+			q := q
+			other.Ops = append(other.Ops, COp{Kind: "req", Req: &q})
+		}
+		if r.P(0.5) {
+			other.Ops = append(other.Ops, genOperatorOp(r, n))
+		}
+	}
+	// a follow-up request after both, to observe what the overlap left behind
+	fq := pool.pick(r, 1)[0]
+	if r.P(0.5) && victim.Ops[0].Req != nil {
+		fq = *victim.Ops[0].Req
+	}
+	tail := CTask{Ops: []COp{{Kind: "req", Req: &fq}, {Kind: "config"}}}
+	p.Tasks = []CTask{victim, other, tail}
+	p.Order = []int{0, 1, 2}
+	counts, _ := dryRun(p)
+	if ny := counts[0][0]; ny > 0 {
+		p.Preempts = []Preempt{{Task: 0, Op: 0, Yield: pos % ny, To: 1, Burst: len(other.Ops)}}
+	}
+	return p
+}
+
 func (e c07) Gen(r *R, tier string) any {
+	if r.Run%4 == 3 {
+		return e.genSweep(r.Seed, r.Run/4)
+	}
 	p := &C07Plan{}
 	n := r.Range(2, 4)
 	p.Cfgs = append(p.Cfgs, genCfgX(r))
@@ -911,6 +974,9 @@ func (e c07) Exec(plan any, c *Ctx) *Violation {
 		}
 	}
 	c.Nontrivial = c.Stats["F3_preemption_fired"] > 0 || reent
+	if p.Sweep {
+		c.hit("sweep_runs_enumerating_every_schedule_point_of_a_victim_operation")
+	}
 	if len(s.panics) > 0 {
 		return &Violation{Class: "panic", Key: "concurrent", Detail: "panic under a schedule the sequential code never panics under: " + strings.Join(s.panics, "; ")}
 	}
